@@ -6,6 +6,7 @@
 //
 ///////////////////////////////////////////////////////////////////////////////
 #define CPPCMS_SOURCE
+#include <booster/verif_hooks.h>
 #include "tcp_cache_client.h"
 #include <booster/atomic_counter.h>
 
@@ -49,12 +50,15 @@ namespace impl {
 				// with the triggers of the local copy it replaces
 				std::set<std::string> updated_triggers;
 				int res = tcp()->fetch(key,*a,&updated_triggers,*timeout_out,*gen,true);
+					CPPCMS_VERIF_PROBE("cache_over_ip.l1_hit_up_to_date");
 				if(res==tcp_cache::up_to_date)
 					return true;
 				if(res==tcp_cache::not_found) {
+					CPPCMS_VERIF_PROBE("cache_over_ip.l1_hit_gone_on_server");
 					l1_->remove(key);
 					return false;
 				}
+				CPPCMS_VERIF_PROBE("cache_over_ip.l1_hit_refreshed");
 				tags->swap(updated_triggers);
 				l1_->store(key,*a,*tags,*timeout_out,gen);
 				return true;
